@@ -7,8 +7,15 @@ blocks_tie / inlines_tie (the full scopes run in C04 thorough, BLOCKS_TIE and IN
 names a parser mechanism (C01 cursor, C04 containment, C08 line endings, C13 special characters, C20 front
 matter) lists the theorem it relies on in its own Props file; this module makes the model those theorems
 talk about an obligation of that check, so that a change of the parser which moves the model away from the
-code is reported by the properties whose theorems would no longer be about the code."""
-from checks import blocks_tie, inlines_tie
+code is reported by the properties whose theorems would no longer be about the code.
+
+`whole(c, tier, frac)` does the same for the WHOLE parser as one function (coq/Model/Parse.v parse_document_model =
+block phase + process_inlines + process_footnotes + postprocess_text_nodes): the translator items of the three models
+and of the glue functions (parse_glue), the theorems of coq/Props/Parse.v (Parse_shape, Parse_C02, Parse_C10,
+Parse_valid_partial, Parse_line_invariance ...: statements about the tree that ONE function of the input bytes returns)
+and the end-to-end tie of that function to the compiled parse_document (tools/checks/parse_tie.py) on a `frac` share of
+its scopes (the full scopes run in PARSE_TIE)."""
+from checks import blocks_tie, inlines_tie, parse_tie
 
 BLOCK_ITEMS = ["blocks", "nodes", "feed", "frontmatter", "scanners_re", "strleaf", "entities", "ctype"]
 
@@ -35,3 +42,12 @@ def inlines(c, tier, frac, proofs=True, profile="debug", on_impl_panic=None):
     if not c.phase_builds((profile,)):
         return False
     return inlines_tie.tie_inlines(c, tier, profile=profile, frac=frac, on_impl_panic=on_impl_panic or _unexamined(c))
+
+
+def whole(c, tier, frac, proofs=True, profile="debug", more=False):
+    c.phase_translator(parse_tie.ITEMS)
+    if proofs:
+        c.phase_proofs("Parse")
+        if more:
+            c.phase_proofs("ParseMore")   # the C08 rewrites, the links to ParserShapeAttach / final_tree
+    return parse_tie.tie_parse(c, tier, frac=frac, profile=profile)
